@@ -132,15 +132,34 @@ Print Assumptions C05_drange_1b.
 
 (* registry: after ANY history of calendar(...) calls, calendar(k) returns the arguments of the last
    registration of k (or what the initial state gave); and every call returns what is now registered *)
-Theorem C05_registry_last_write_wins (V : Type) (default : V) ops st k :
+Theorem C05_registry_args_last_write_wins (V : Type) (default : V) ops st k :
   reg_get default (fst (calendar_calls default st ops)) k =
     match last_put k ops with Some v => v | None => reg_get default st k end.
 Proof. exact (registry_last_write_wins V default ops st k). Qed.
-Print Assumptions C05_registry_last_write_wins.
+Print Assumptions C05_registry_args_last_write_wins.
 Theorem C05_registry_call_returns_registered (V : Type) (default : V) st k arg :
   snd (calendar_call default st k arg) = reg_get default (fst (calendar_call default st k arg)) k.
 Proof. exact (call_returns_registered V default st k arg). Qed.
 Print Assumptions C05_registry_call_returns_registered.
+
+(* registry WITH the lazily populated tables of the registered objects (state: key -> (arguments, cached tables)):
+   after ANY history of registrations by key or through a fetched object, fetches and table-path uses
+   (add |n|>1, bdays, drange 'b'), from a state whose caches are coherent (e.g. the empty registry):
+   calendar(k) carries the arguments last registered for k (spec_run: the registrations alone) and its table-path
+   methods read the table built from exactly those arguments, never one populated for older holidays *)
+Theorem C05_registry_last_write_wins (V T : Type) (build : V -> T) (default : V) ops st :
+  coherent build st ->
+  coherent build (t_run build default ops st) /\
+  forall k, t_args default (t_run build default ops st) k = spec_run ops (t_args default st) k /\
+            t_table build default (t_run build default ops st) k = build (spec_run ops (t_args default st) k).
+Proof. exact (registry_tables_last_write_wins V T build default ops st). Qed.
+Print Assumptions C05_registry_last_write_wins.
+Example C05_registry_example :
+  let v1 : cal_args := ([737784], [5; 6], 737760, 737821) in let v2 : cal_args := ([737790], [5; 6], 737760, 737821) in
+  let st := t_run build_args default_args [OCall 7 (Some v1); OUse 7; OCall 7 (Some v2)] [] in
+  coherent build_args ([] : registry (tentry cal_args (list Z))) /\
+  t_table build_args default_args st 7 = build_args v2 /\ build_args v1 <> build_args v2.
+Proof. split; [intros k v t E; discriminate|]. split; [vm_compute; reflexivity | vm_compute; discriminate]. Qed.
 
 (* the Gallina text regenerated from /repo's _drange.py on every run (coq/gen/Gen_drange.v) IS the model:
    is_holiday, is_bday, both loops of adjust 'f' and 'p', the path selector and the |days| <= 1 path of add *)
